@@ -416,7 +416,14 @@ func (w *World) doTruncate(n *Node, res *StepResult) {
 		_, still := s1.Live[h]
 		_, mv := moved[h]
 		if !still && !mv {
-			w.violate("C07", "lost", "vertex-removed-without-being-stored", n.Idx, "vertex %s", hx(h))
+			// a tentative tip may be dropped as invalid by any admission that examines it (C01): only a
+			// truncation that ran alone, or the removal of a vertex that had children, is the truncation's doing
+			sv0 := s0.Live[h]
+			if alone || (sv0 != nil && len(sv0.GChild) > 0) {
+				w.violate("C07", "lost", "vertex-removed-without-being-stored", n.Idx, "vertex %s (children before: %d)", hx(h), len(sv0.GChild))
+			} else {
+				w.probe("c07-tip-dropped-by-concurrent-admission")
+			}
 		}
 		if still && mv {
 			w.violate("C03", "vertex-twice", "vertex-both-live-and-stored", n.Idx, "vertex %s", hx(h))
@@ -440,7 +447,7 @@ func (w *World) doTruncate(n *Node, res *StepResult) {
 	if !alone {
 		return
 	}
-	if w.storedOverdrawn(s1) {
+	if w.storedOverdrawn(s1) || len(w.nstate(n.Idx).tainted) > 0 {
 		w.probe("c07-balance-clause-skipped-stored-set-overdrawn")
 		return
 	}
@@ -556,6 +563,10 @@ func (w *World) storedOverdrawn(s *Snap) bool {
 }
 
 func (w *World) checkCheckpointFunds(s *Snap) {
+	if len(w.nstate(s.Node).tainted) > 0 {
+		w.probe("c07-funds-clause-skipped-checkpoint-tainted")
+		return
+	}
 	if len(s.Trusted) > 0 || len(w.Cfg.Trusted) > 0 {
 		// under the trusted-node exemption a wallet's net flow can be negative, which no
 		// checkpoint can represent; the clause is judged on ledgers without the exemption
@@ -585,8 +596,12 @@ func (w *World) checkCheckpointFunds(s *Snap) {
 		if ok {
 			got = melVal(f)
 		}
+		if got.Cmp(net) != 0 && (in.Cmp(maxMel) >= 0 || out.Cmp(maxMel) >= 0) {
+			w.violate("C07", "funds", "checkpoint-gross-flow-not-representable", s.Node, "address %s funds %s net flow %s (stored in %s out %s)", a[:8], got, net, in, out)
+			continue
+		}
 		if got.Cmp(net) != 0 {
-			w.violate("C07", "funds", "checkpoint-funds-differ-from-net-flow-of-stored-vertices", s.Node, "address %s funds %s net flow %s", a[:8], got, net)
+			w.violate("C07", "funds", "checkpoint-funds-differ-from-net-flow-of-stored-vertices", s.Node, "address %s funds %s net flow %s (stored in %s out %s, %d stored vertices)", a[:8], got, net, in, out, len(s.Stored))
 		}
 	}
 }
@@ -684,6 +699,13 @@ func (w *World) execStep(i int, s *Step) {
 			if w.Created[k].Node == n.Idx && w.Created[k].V.Transaction.Hash == trx.Hash {
 				created = &w.Created[k].V
 				break
+			}
+		}
+		if created != nil && before != nil && after != nil {
+			for h := range after.Live {
+				if _, was := before.Live[h]; !was && h != created.Hash {
+					clean = false // something else was admitted in the window (orphan retry, late gossip)
+				}
 			}
 		}
 		if clean && created != nil && before != nil && after != nil {
